@@ -90,6 +90,10 @@ def parseOp (cfg : Cfg) (roomOf : Nat → Nat) : List String → Option HOp
   | ["tremove", s, k] => do some (.transient (← sessTok s) (.remove (← dec k)))
   | ["tother", s] => do some (.transient (← sessTok s) .other)
   | ["state"] => some .state
+  | ["storm", s, p, seed, n] => do
+    let n ← toNat? n
+    let _ ← toNat? seed
+    if 1 ≤ n && n ≤ 200 then some (.storm (← sessTok s) (← parsePermSet cfg p)) else none
   | _ => none
 
 /-! ### running an operation to quiescence -/
@@ -159,6 +163,8 @@ def hexec (cfg : Cfg) (st : SigModel.Perm.St) : HOp → SigModel.Perm.St × Stri
   | .control s rc => clientOp cfg st s (.control s rc)
   | .transient s a => clientOp cfg st s (.transient s a)
   | .state => (st, "ok", [])
+  -- not predictable (real concurrency): the model side only says `storm`; such a line ends its case
+  | .storm s _ => if !(st.sess s).live then (st, "closed", []) else (st, "storm", [])
 
 /-! ### rendering -/
 
@@ -214,7 +220,7 @@ def step (st : St) (op impl : List String) : St × String × String :=
   | none => (st, "bad-op", "na")
   | some o =>
     let (m', outcome, evs) := hexec codeCfg st.model o
-    let out := render m' outcome evs
+    let out := if outcome == "storm" then "storm" else render m' outcome evs
     let (j', v) :=
       if impl.isEmpty then (st.judge, "na")
       else match parseOp codeCfg (roomOfJudge st.judge) op with
